@@ -64,6 +64,40 @@ def _read_all(fd, deadline, pid):
     return b"".join(chunks)
 
 
+def fork_raw(fn, *args, timeout=60.0):
+    """Like fork_call, but the child's pickled result is returned as bytes, un-parsed: the forking
+    process allocates nothing whose size or shape depends on the request, so that the object
+    free-lists and small-object arenas every child inherits are the same for every request
+    (memory addresses - id() - are a source of nondeterminism like any other)."""
+    r, w = os.pipe()
+    sys.stdout.flush()
+    sys.stderr.flush()
+    pid = os.fork()
+    if pid == 0:
+        code = 0
+        try:
+            os.close(r)
+            try:
+                out = ("ok", fn(*args))
+            except BaseException:
+                out = ("exc", traceback.format_exc())
+            view = memoryview(pickle.dumps(out, protocol=4))
+            while view:
+                n = os.write(w, view[:1 << 16])
+                view = view[n:]
+        except BaseException:
+            code = 3
+        finally:
+            os._exit(code)
+    os.close(w)
+    try:
+        data = _read_all(r, time.monotonic() + timeout, pid)
+    finally:
+        os.close(r)
+    os.waitpid(pid, 0)
+    return data
+
+
 def fork_call(fn, *args, timeout=60.0):
     """Run ``fn(*args)`` in a child forked from this (pristine) process and
     return its value.  Exceptions in the child are harness errors."""
@@ -200,3 +234,52 @@ def cold_history(ops, passive, hashseed):
     if p.returncode != 0:
         raise HarnessError("cold interpreter failed on a history (%d)" % p.returncode)
     return pickle.loads(p.stdout)
+
+
+class SimClient:
+    """The simulated caller's process: a dedicated pristine interpreter (harness hash seed) that
+    imports selfies, calls nothing, never parses a request or a result itself, and forks one child
+    per history.  Every history therefore starts from byte-identical interpreter state, whatever
+    the worker process has done before."""
+
+    def __init__(self):
+        e = dict(os.environ)
+        e["PYTHONHASHSEED"] = env.HARNESS_HASHSEED
+        e["PYTHONPATH"] = env.VERIF + os.pathsep + e.get("PYTHONPATH", "")
+        e["VERIF_REPO"] = env.REPO
+        self.p = subprocess.Popen(
+            [sys.executable, "-m", "sim.oracle_server", "--sim"], env=e, cwd=env.VERIF,
+            stdin=subprocess.PIPE, stdout=subprocess.PIPE)
+        hello = _recv(self.p.stdout)
+        if hello[0] != "hello" or not hello[1].startswith(env.REPO + os.sep):
+            raise HarnessError("simulated process imported selfies from %r" % (hello,))
+
+    def _raw(self, kind, payload, timeout):
+        self.p.stdin.write(kind)
+        self.p.stdin.write(struct.pack("<Id", len(payload), timeout))
+        self.p.stdin.write(payload)
+        self.p.stdin.flush()
+        hdr = self.p.stdout.read(4)
+        if len(hdr) < 4:
+            raise HarnessError("simulated process died")
+        (n,) = struct.unpack("<I", hdr)
+        data = self.p.stdout.read(n)
+        if not data:
+            raise HarnessTimeout("simulated history did not finish (or its process died)")
+        out = pickle.loads(data)
+        if out[0] != "ok":
+            raise HarnessError("exception in simulated child:\n" + out[1])
+        return out[1]
+
+    def history(self, ops, passive, timeout=180.0):
+        return self._raw(b"H", pickle.dumps((ops, passive), protocol=4), timeout)
+
+    def presets(self):
+        return self._raw(b"P", b"", 60.0)
+
+    def close(self):
+        try:
+            self.p.stdin.close()
+            self.p.wait(timeout=5)
+        except Exception:
+            self.p.kill()
